@@ -410,6 +410,8 @@ def _fortran_wrapper_type(ts, attrs):
 
 
 def _fortran_wrapper_ret(ts, attrs):
+    if re.match(r"^COMPLEX\((KIND=)?C_DOUBLE\)$", ts):
+        return "complex"
     m = re.match(r"^(INTEGER|REAL|TYPE|CHARACTER)\((.*)\)$", ts)
     if not m:
         return "?" + ts
@@ -711,8 +713,9 @@ def prdata_java(path, relname):
 
 
 # ------------------------------------------------------------------------------------ IDL
-def idl(path, relname, env):
-    """NAME = expr assignments at main level; env shared over the files of the interface (upper-case keys)"""
+def idl(path, relname, env, on_run=None):
+    """NAME = expr assignments at main level; env shared over the files of the interface (upper-case keys).
+    on_run(cmd, name, line) is called in statement order for .run / @ lines so that the caller can lex the named file at that point."""
     consts, runs, common = [], [], []
     text = _read(path)
     # join continuation lines ($ at end)
@@ -733,7 +736,10 @@ def idl(path, relname, env):
             continue
         m = re.match(r"(?i)^(\.run|\.compile|\.r|@)\s*(\S+)$", l)
         if m:
-            runs.append((m.group(1).lower(), m.group(2), ln)); continue
+            runs.append((m.group(1).lower(), m.group(2), ln))
+            if on_run:
+                on_run(m.group(1).lower(), m.group(2), ln)
+            continue
         m = re.match(r"(?i)^COMMON\s+(\w+)\s*,\s*(.*)$", l)
         if m:
             common += [x.strip() for x in m.group(2).split(",") if x.strip()]; continue
